@@ -2,19 +2,65 @@
 import vf
 
 META = {
-    "claimed": False,
-    "text": "work in progress",
-    "note": "",
-    "technique": "Coq proof + model/implementation correspondence",
+    "claimed": True,
+    "text": ("Coq theorems over a model of Planner::prune_plan / Graph::partial_run on top of the executor model of C02: prune_plan never "
+             "keeps an operator whose is_deterministic() is false, so partial evaluation (and constant propagation, which uses it) never "
+             "runs one (C04_nondeterministic_never_partial); for ALL graphs, input subsets and outputs: when the partial evaluation of the "
+             "pruned plan on the subset, the full evaluation, and the completing evaluation on (leaves + remaining inputs) succeed, the last "
+             "two return the same outputs - even if non-deterministic operators behave differently during the partial run "
+             "(C04_partial_then_run, on the naive evaluation to which Graph::run is tied by C02); every resolved dependency of a pruned-away "
+             "operator and every producible requested output is among the returned leaves (C04_leaves_sufficient, C04_outputs_returned). "
+             "Tie: on random DAGs of test operators with one non-deterministic operator (fresh counter), for ALL subsets of <= 5 inputs: "
+             "Graph::partial_run then Graph::run((I minus I0) + leaves) vs a single Graph::run; alarm when they differ or when the "
+             "non-deterministic operator ran during partial_run; leaf ids/values are also compared with the model (informational)."),
+    "note": ("Trusted: Coq kernel; correspondence sample; is_deterministic() is trusted per operator; success of the completing run is exercised, "
+             "not proved (only sufficiency of the leaf set is); the allow-missing plan is taken from the implementation (its validity is C03's subject)."),
+    "technique": "Coq proof (fold invariants of prune_plan; equation-consistency argument between two evaluations) + model/implementation correspondence",
 }
 GROUP = "exec"
 REQ = ("From RV Require Import Prelude.\nFrom Planner Require Import Graph.\n"
        "From Exec Require Import ExecModel ModelTestOps PartialModel.\nOpen Scope N_scope.\n"
        "Notation case := case4 (only parsing).")
-THEOREMS = []
+THEOREMS = ["C04_nondeterministic_never_partial", "C04_partial_then_run", "C04_leaves_sufficient", "C04_outputs_returned",
+            "C04_empty_plan", "C04_prop_ok_reflect", "C04_nonvacuous"]
+
+
+def one_pass(ctx, name, cases, agree, prop_ok, show, shard, fn_name, classify=None):
+    """Evaluate the informational model-agreement function and the property oracle in ONE Coq pass
+    over all cases (case terms are large), then hand only the cases that fail the oracle to
+    ctx.correspond (which alarms, classifies known findings and writes replay files).
+    Returns the indices on which the implementation deviates from the deterministic model."""
+    import hashlib
+    dis, pf, err = ctx.coq_eval_cases(GROUP, REQ, [c["term"] for c in cases], agree, prop_ok, shard, tag="all")
+    if err:
+        raise vf.CheckerBroken("model evaluation failed for %s: %s" % (name, err))
+    bad = set(pf)
+    for i, c in enumerate(cases):
+        if i in bad:
+            continue  # accounted for by ctx.correspond below
+        ctx.evals += 1
+        t = c.get("tag", "")
+        ctx.hist[t] = ctx.hist.get(t, 0) + 1
+        if not t.startswith("trivial"):
+            ctx.distinct.add(hashlib.sha1(c["input"].encode()).hexdigest())
+    for c in cases[:3]:
+        if len(ctx.samples) < 12:
+            ctx.samples.append({"check": name, "input": c["input"][:400], "tag": c.get("tag", "")})
+    ctx.log("correspondence %s: %d cases, %d fail the property oracle, %d deviate from the deterministic model"
+            % (name, len(cases), len(pf), len(dis)))
+    if pf:
+        ctx.correspond(name, GROUP, REQ, [cases[i] for i in pf], classify=classify, agree=prop_ok, prop_ok=prop_ok,
+                       show=show, shard=shard, fn_name=fn_name)
+    else:
+        ctx.corr.append({"name": name, "cases": len(cases), "disagree": 0, "property_failures": 0})
+    return dis
 
 
 def main(ctx):
+    ctx.rule = ("seeded random DAGs (1..12 test operators, one flagged non-deterministic in 4 of 5 cases) over 1..5 inputs, small tensors; "
+                "per case ALL 2^n input subsets: partial_run(I0), run(rest + leaves), compared with run(I); non-trivial = partial evaluation "
+                "ran at least one operator or the non-deterministic operator is needed")
+    ctx.trusted += ["Operator::is_deterministic() is trusted per operator"]
     ctx.audit(GROUP, "planner")
     failed = ctx.prove(GROUP, "Props_C04", THEOREMS) if THEOREMS else []
     ok, out = ctx.make(GROUP, ["PartialModel.vo"])
@@ -22,10 +68,9 @@ def main(ctx):
         raise vf.CheckerBroken("PartialModel.v does not compile: " + out[-500:])
     bindir = ctx.harness(GROUP, profile="release", bins=["c04"])
     cases = ctx.gen_exec(bindir, "c04", ctx.n(200, 4000), inputs=ctx.replay_inputs())
-    ctx.correspond("partial_run+run-vs-run", GROUP, REQ, cases, agree="prop_ok4", prop_ok="prop_ok4", show="show4",
-                   shard=25, fn_name="Exec.PartialModel.prop_ok4 (completing a partial run = full run, for all input subsets)")
-    dis, _, err = ctx.coq_eval_cases(GROUP, REQ, [c["term"] for c in cases], "agree4", "prop_ok4", 25, tag="det")
-    ctx.extra["prune_model_disagreements"] = (len(dis) if not err else "evaluation error: " + str(err)[:300])
+    dis = one_pass(ctx, "partial_run+run-vs-run", cases, "agree4", "prop_ok4", "show4", 25,
+                   "Exec.PartialModel.prop_ok4 (completing a partial run = full run, for all input subsets)")
+    ctx.extra["prune_model_disagreements"] = len(dis)
     if dis:
         ctx.log("note: %d case(s): leaf set / leaf values differ from the model of prune_plan; first: %s" % (len(dis), cases[dis[0]]["input"][:300]))
     if failed and not ctx.violations:
